@@ -182,13 +182,44 @@ def join : TRes → TRes → Option TRes
   | r, .failed => some r
   | .ok a, .ok b => if a = b then some (.ok a) else none
 
+def natTy : Ty → Option Ty
+  | .bytes => some .nat
+  | _ => none
+
+def bytesTy : Ty → Option Ty
+  | .nat | .int => some .bytes
+  | _ => none
+
+def votingPowerTy : Ty → Option Ty
+  | .keyHash => some .nat
+  | _ => none
+
+def hashKeyTy : Ty → Option Ty
+  | .key => some .keyHash
+  | _ => none
+
+/-- extension 2, the rules of the form `i :: a : S ⇒ r : S`: result type for the operand type -/
+def unTy (i : Instr) (a : Ty) : Option Ty :=
+  match i with
+  | .NAT => natTy a
+  | .BYTES => bytesTy a
+  | .VOTING_POWER => votingPowerTy a
+  | .HASH_KEY => hashKeyTy a
+  | _ => none
+
+/-- the rules of extension 2 -/
+def stepExt : Instr → List Ty → Option TRes
+  | .NEVER, .never :: _ => some .failed      -- `NEVER :: never : A ⇒ B` for every `B`: like FAILWITH, nothing follows
+  | i, a :: s => (unTy i a).map fun t => .ok (t :: s)
+  | _, [] => none
+
 def stepMore : Instr → List Ty → Option TRes
   | .TOTAL_VOTING_POWER, s | .MIN_BLOCK_TIME, s => some (.ok (.nat :: s))
   | .BLAKE2B, .bytes :: s | .SHA256, .bytes :: s | .SHA512, .bytes :: s | .KECCAK, .bytes :: s | .SHA3, .bytes :: s =>
     some (.ok (.bytes :: s))
   | .CAST t, a :: s => if a = t then some (.ok (a :: s)) else none
   | .RENAME, a :: s => some (.ok (a :: s))
-  | _, _ => none
+  | i, s => stepExt i s
 
 def step : Instr → List Ty → Option TRes
   | .DROP, _ :: s => some (.ok s)
@@ -233,6 +264,7 @@ def step : Instr → List Ty → Option TRes
   | .ABS, .int :: s => some (.ok (.nat :: s))
   | .ISNAT, .int :: s => some (.ok (.option .nat :: s))
   | .INT, .nat :: s => some (.ok (.int :: s))
+  | .INT, .bytes :: s => some (.ok (.int :: s))
   | .COMPARE, a :: b :: s => if a = b ∧ simpleComparable a then some (.ok (.int :: s)) else none
   | .EQ, .int :: s | .NEQ, .int :: s | .LT, .int :: s | .GT, .int :: s | .LE, .int :: s | .GE, .int :: s =>
     some (.ok (.bool :: s))
@@ -343,6 +375,8 @@ mutual
     | .bytes _, .bytes => true
     | .atom .address _, .address => true
     | .atom .chainId _, .chainId => true
+    | .atom .keyHash _, .keyHash => true
+    | .atom .key _, .key => true
     | .pair a b, .pair ta tb => checkVal strictMap a ta && checkVal strictMap b tb
     | .some v, .option t => checkVal strictMap v t
     | .none t', .option t => t' = t
